@@ -3,7 +3,7 @@
 From Coq Require Import ZArith QArith Qcanon List Bool.
 From EXV Require Import Base.Scalar Base.FieldLemmas Base.Cplx Exec.Codec.
 From EXV Require Import Exec.EntryC19.
-From EXV Require Import Utils.Rollout Gen.ETDRK Gen.Guards Spectral.Symbols Gen.GenericUtils Steppers.Linear Layout.Freq Nonlin.Conv Nonlin.Terms Spectral.Operators Nonlin.Injection Spectral.Spectrum.
+From EXV Require Import Utils.Rollout Gen.ETDRK Gen.Guards Spectral.Symbols Gen.GenericUtils Steppers.Linear Layout.Freq Nonlin.Conv Nonlin.Terms Spectral.Operators Nonlin.Injection Spectral.Spectrum Layout.Resample.
 Import ListNotations.
 Local Open Scope Z_scope.
 
@@ -207,6 +207,7 @@ Definition run_c04 (sub : Z) (a : list Q) : list Q :=
   | 7 => [zq (wrap_index (z 0%nat) (z 1%nat))]
   | 8 => [bq (dealias_keeps (z 0%nat) (z 1%nat) (z 2%nat) (z 3%nat)); zq (dealias_K (z 0%nat) (z 1%nat) (z 2%nat))]
   | 9 => map zq (wavenumber_shape (n 0%nat) (z 1%nat))
+  | 10 => [bq (resample_keeps (z 0%nat) (z 1%nat) (b 2%nat) (zs (skipn 3 a)))]
   | _ => []
   end.
 
